@@ -117,18 +117,26 @@ Theorem format_missing_arg_errors : forall go f args,
 Proof. exact format_missing_arg_errors_lemma. Qed.
 Print Assumptions format_missing_arg_errors.
 
-(* gopher-lua's string.format (go = true) is C's printf (go = false) on every directive C defines,
-   outside the three listed deviations (known findings C15-8, C15-11, C15-12) *)
+(* gopher-lua's string.format (go = true) is C's printf (go = false) on every directive C defines;
+   in fact on every directive except a zero-filled %s / %c (undefined in C) *)
 Theorem format_impl_eq_spec : forall sp a,
-  c_defined sp a = true -> known_dev sp a = false -> fmt_dir true sp a = fmt_dir false sp a.
+  c_defined sp a = true -> fmt_dir true sp a = fmt_dir false sp a.
 Proof. exact format_impl_eq_spec_lemma. Qed.
 Print Assumptions format_impl_eq_spec.
 
-(* the deviations are real: C15-8, C15-11, C15-12 *)
-Theorem format_impl_eq_spec_refuted :
-  exists sp a, c_defined sp a = true /\ fmt_dir true sp a <> fmt_dir false sp a.
-Proof. exact format_impl_neq_spec_witness. Qed.
-Print Assumptions format_impl_eq_spec_refuted.
+Theorem format_impl_eq_spec_strong : forall sp a,
+  verb_in (d_verb sp) [99; 115] && (f_zero sp && negb (f_minus sp)) = false ->
+  fmt_dir true sp a = fmt_dir false sp a.
+Proof. exact format_impl_eq_spec_strong_lemma. Qed.
+Print Assumptions format_impl_eq_spec_strong.
+
+(* numeric strings are converted for numeric conversions, other strings raise *)
+Theorem format_numeric_string : forall go sp s n rest its,
+  numeric_verb (d_verb sp) = true ->
+  run_items go (IDir sp :: its) (AConv s (Some n) :: rest) = run_items go (IDir sp :: its) (ANum n :: rest) /\
+  run_items go (IDir sp :: its) (AConv s None :: rest) = FErr.
+Proof. exact format_numeric_string_lemma. Qed.
+Print Assumptions format_numeric_string.
 
 (* ---------- math library (MathWModel.v) ---------- *)
 From GL Require Import Str.MathWModel Str.MathWFacts Str.MathWOrder.
